@@ -19,9 +19,18 @@ def run(chk, tier):
     chk.rule("R-DEFINE", "the three parsers define their destination before accumulating into it (result independent of previous contents)")
     nd = bitmaprules.define_before_accumulate(chk, P, ["hwloc_bitmap_sscanf", "hwloc_bitmap_list_sscanf", "hwloc_bitmap_taskset_sscanf"])
     chk.floor("R-DEFINE", "accumulating sites in the parsers", nd, 3)
-    chk.rule("R-NUL", "a scanner never hands p+k to a string function unless p[0..k-1] are known non-NUL")
+    chk.rule("R-NUL", "a scanner never hands p+k to a string function unless p[0..k-1] are known non-NUL, and a character search from p+1 does not skip an occurrence at p[0] (p is the previous match or p[0] was compared)")
     nn = bitmaprules.nul_discipline(chk, P, "bitmap.c", ["hwloc_bitmap_sscanf", "hwloc_bitmap_list_sscanf", "hwloc_bitmap_taskset_sscanf"])
-    chk.floor("R-NUL", "p+k string-function arguments in the parsers", nn, 1)
+    # the repaired parsers contain no p+k search any more: the rule must still prove on every run that it can fire (positive example)
+    from prog import ExampleProgram
+    from report import Check as _Check
+    ex = _Check("C04-example")
+    bitmaprules.nul_discipline(ex, ExampleProgram(["nul_skip.c"]), "nul_skip.c", ["count_fields_bad", "count_fields_good"])
+    fired = sorted(i["construct"] for i in ex.instances if not i["ok"] and i["function"] == "count_fields_bad")
+    quiet = not any((not i["ok"]) for i in ex.instances if i["function"] == "count_fields_good")
+    chk.need(len(fired) == 2 and quiet, "R-NUL: the positive example selftest/examples/nul_skip.c no longer triggers both obligations (fired: %s, good variant quiet: %s)" % (fired, quiet))
+    chk.inst("R-NUL", "<example>", "nul_skip.c", len(fired) == 2 and quiet, "positive example: both obligations fire on count_fields_bad (%s), none on count_fields_good" % fired, loc="selftest/examples/nul_skip.c", nontrivial=False)
+    chk.floor("R-NUL", "p+k string-function arguments in the parsers (0 on the repaired tree) + positive example", nn + 1, 1)
     for fn in ("hwloc_bitmap_sscanf", "hwloc_bitmap_list_sscanf", "hwloc_bitmap_taskset_sscanf"):
         f = P.need_func(fn, "bitmap.c")
         from prog import returns, cval
